@@ -399,6 +399,31 @@ Definition post_message (g : cfg) (aok : ck -> bool) (mid sid : N) (inp : input)
      else [])
   else [].
 
+(* ---------- thread_post_message under a client that hangs up ----------
+   The handler has ONE suspension point: `state.sessions.lock().await` (registering the session handle in the router's
+   map; a tokio Mutex, it suspends when another request is inside the map's critical section).  hyper/axum DROP the handler
+   future of a connection that went away while it is suspended.  Where that suspension point sits decides what a dropped
+   request leaves behind:
+     PoLockFirst    create session, lock + register, THEN append message, append run_spawned, spawn - no suspension
+                    point between the two appends and the spawn (server.rs today, after the fix);
+     PoAppendFirst  append message, THEN lock + register, append run_spawned, spawn (before the fix): a request dropped
+                    at the lock has logged its message and never announces or starts the run.
+   Gen/RunLifecycleGen.v re-reads the order from server.rs on every run (gen_post_order). *)
+Inductive post_order := PoLockFirst | PoAppendFirst.
+Definition post_order_safe (po : post_order) : bool := match po with PoLockFirst => true | PoAppendFirst => false end.
+Definition post_order_eqb (a b : post_order) : bool :=
+  match a, b with PoLockFirst, PoLockFirst | PoAppendFirst, PoAppendFirst => true | _, _ => false end.
+Definition POST_ORDER : post_order := PoLockFirst.
+
+(* `dropped` = the request future is dropped at the suspension point *)
+Definition post_message_hung (po : post_order) (g : cfg) (aok : ck -> bool) (mid sid : N) (inp : input) (dropped : bool) : list ev :=
+  if dropped then
+    match po with
+    | PoLockFirst => []
+    | PoAppendFirst => if aok (CMessage mid) then [EC (CMessage mid)] else []
+    end
+  else post_message g aok mid sid inp.
+
 (* ---------- background jobs (compaction summarizer) ---------- *)
 Inductive job_out :=
 | JEarlyErr              (* replay failed / thread missing: returns before the closure, no frame *)
@@ -522,6 +547,8 @@ Definition conts (l : list ev) : list ck :=
 
 Definition is_spawn_of (mid : N) (k : ck) : bool :=
   match k with CRunSpawned _ m => m =? mid | _ => false end.
+Definition is_message_of (mid : N) (k : ck) : bool :=
+  match k with CMessage m => m =? mid | _ => false end.
 Definition is_end_of (run : N) (k : ck) : bool :=
   match k with CRunEnded r _ _ => r =? run | _ => false end.
 Definition is_job_end_of (j : N) (k : ck) : bool :=
@@ -609,7 +636,9 @@ Record case := {
   k_acts : list act;
   k_expect : list (list N);
   k_races : list (N * N);     (* stepped concurrent inputs: (number of senders, number of accepted inputs) per round *)
-  k_faults : list N }.        (* fault injection: the kinds of continuity frames (head of ck_code) whose append fails *)
+  k_faults : list N;          (* fault injection: the kinds of continuity frames (head of ck_code) whose append fails *)
+  k_drops : list (list N) }.  (* posts whose request future was dropped at the handler's suspension point: the frames
+                                 each left in the log (message id written 0) *)
 
 Fixpoint all2 {A B} (f : A -> B -> bool) (a : list A) (b : list B) : bool :=
   match a, b with
@@ -624,7 +653,10 @@ Definition aok_of (faults : list N) (k : ck) : bool :=
 
 Definition check_case (c : case) : bool :=
   all2 (fun a e => lN_eqb (enc_evs (act_events (aok_of (k_faults c)) a)) e) (k_acts c) (k_expect c)
-  && forallb (fun r : N * N => race_accepted GUARD_KIND (fst r) =? snd r) (k_races c).
+  && forallb (fun r : N * N => race_accepted GUARD_KIND (fst r) =? snd r) (k_races c)
+  && forallb (fun e : list N =>
+                lN_eqb (enc_evs (post_message_hung POST_ORDER {| g_provider := false; g_stateless := false |} all_ok 0 0 (IPrompt true []) true)) e)
+             (k_drops c).
 
 Definition model_obs (c : case) : list N :=
   flat_map (fun a => enc_evs (act_events (aok_of (k_faults c)) a)) (k_acts c).
